@@ -141,3 +141,13 @@ Definition wb_cksum_combine (ws : list Z) : Z :=
 Definition wb_pseudo_header (src dst : list Z) (proto len : Z) : Z :=
   wb_cksum_combine [wb_cksum_data src; wb_cksum_data dst;
                     wb_cksum_data ([0; proto] ++ be_enc2 len)].
+
+(* concrete checksum parameters used by the correspondence driver (src/dst = address octets):
+   verification  `combine(&[pseudo_header(src, dst, proto, len), data(d)]) == !0`  and the value
+   `!combine(...)` stored by fill_checksum; the "plain" forms have no pseudo header. *)
+Definition wb_pseudo_ok (src dst : list Z) (proto : Z) (d : list Z) : bool :=
+  wb_cksum_combine [wb_pseudo_header src dst proto (blen d); wb_cksum_data d] =? 65535.
+Definition wb_pseudo_fill (src dst : list Z) (proto : Z) (d : list Z) : Z :=
+  65535 - wb_cksum_combine [wb_pseudo_header src dst proto (blen d); wb_cksum_data d].
+Definition wb_plain_ok (d : list Z) : bool := wb_cksum_data d =? 65535.
+Definition wb_plain_fill (d : list Z) : Z := 65535 - wb_cksum_data d.
